@@ -11,7 +11,7 @@ PID, COMP = "C15", "AntiAmp"
 
 # the budget discipline the property asks for / the three named deviations of the code
 DISCIPLINE = {"RereadPerSegment": "FALSE", "PadBeyondCredit": "FALSE", "WrapOnOverdraft": "FALSE"}
-AS_CODED = {"RereadPerSegment": "TRUE", "PadBeyondCredit": "TRUE", "WrapOnOverdraft": "TRUE"}
+AS_CODED = {"RereadPerSegment": "TRUE", "PadBeyondCredit": "TRUE", "WrapOnOverdraft": "FALSE"}   # on_sent saturates since 456e429
 BASE = {"N": 3}
 MC_INVS = ("TypeOK", "Amp3x", "CreditNeverWraps", "ResumeOnRcvdOrGrant")
 MC_CFG = common.mc_cfg(invs=MC_INVS, props=("DeadIsFinal",))
@@ -166,7 +166,6 @@ def run(tier, rep):
     for name in ("RereadPerSegment", "PadBeyondCredit"):
         flags = dict(DISCIPLINE)
         flags[name] = "TRUE"
-        flags["WrapOnOverdraft"] = "TRUE"
         expect_counterexample(rep, name, mc_consts(flags, MaxBursts=1), "Amp3x")
     # 2. + 3. spec -> real AntiAmplifier -> spec
     full = "{0, 1, 400, 1200}"
